@@ -11,6 +11,7 @@ use std::panic::{catch_unwind, AssertUnwindSafe};
 
 struct Finding { oracle: &'static str, input: String, observed: String, expected: String }
 type Out = Vec<Finding>;
+static LAST_PANIC: std::sync::Mutex<String> = std::sync::Mutex::new(String::new());
 static CASES: std::sync::atomic::AtomicU64 = std::sync::atomic::AtomicU64::new(0);
 /// one generated input / one step of an operation sequence evaluated against the real crate
 #[inline] fn case() { CASES.fetch_add(1, std::sync::atomic::Ordering::Relaxed); }
@@ -290,6 +291,21 @@ fn c04_f64(rng: &mut Rng, out: &mut Out) {
             Err(e) => report(out, "C04 f64 banded det panicked", desc.clone(), e, "a value".into()) } }
     } } } }
 }
+fn c05_f64(rng: &mut Rng, out: &mut Out) {
+    for n in 1..10usize { for sc in [1.0, 1.0e-17, 1.0e-30, 9.313225746154785e-10 /* 2^-30 */, 1.0e12] { case();
+        let sub: Vec<f64> = (0..n - 1).map(|_| rng.int(-2, 2) as f64 * sc).collect();
+        let sup: Vec<f64> = (0..n - 1).map(|_| rng.int(-2, 2) as f64 * sc).collect();
+        let main: Vec<f64> = (0..n).map(|_| (5 + rng.below(4)) as f64 * sc * if rng.below(2) == 0 { 1.0 } else { -1.0 }).collect();      // diagonally dominant
+        let xs: Vec<f64> = (0..n).map(|_| rng.int(-4, 4) as f64).collect();
+        let rhs: Vec<f64> = (0..n).map(|i| main[i] * xs[i] + if i > 0 { sub[i - 1] * xs[i - 1] } else { 0.0 } + if i + 1 < n { sup[i] * xs[i + 1] } else { 0.0 }).collect();
+        let t = Tridiagonal::with_vecs(sub.clone(), main.clone(), sup.clone());
+        let ctx = format!("sub={:?} main={:?} sup={:?} r={:?}", sub, main, sup, rhs);
+        match quiet(|| t.solve(&Vector::create(rhs.clone()))) {
+            Ok(x) => { let err = (0..n).map(|i| (x[i] - xs[i]).abs()).fold(0.0f64, f64::max); if !(err <= 1e-9) { report(out, "C05 f64 solve of a diagonally dominant system of any scale is accurate", ctx, format!("max error {:e}", err), "<= 1e-9".into()); } }
+            Err(e) => report(out, "C05 f64 solve refused a diagonally dominant system (no pivot is zero)", ctx, e, "a solution".into()),
+        }
+    } }
+}
 fn c05(rng: &mut Rng, out: &mut Out) {
     for n in 1..8usize { for rep in 0..12 { case();
         let sub: Vec<Q> = (0..n - 1).map(|_| if rep % 4 == 0 { Q::int(0) } else { rng.q() }).collect();
@@ -359,9 +375,9 @@ fn c06(rng: &mut Rng, out: &mut Out) {
         let mut s = match s { Ok(s) => s, Err(e) => { report(out, "C06 from_triplets panicked", ctx0, e, "a matrix".into()); continue; } };
         sparse_views_agree(&s, &d, &ctx0, out);
         let mut ctx = ctx0.clone();
-        for _ in 0..3 { case();
-            match rng.below(3) {
-                0 => { let (i, j, v) = (rng.below(r as u64) as usize, rng.below(c as u64) as usize, rng.q_nz());
+        for _ in 0..5 { case();
+            match rng.below(4) {
+                0 | 3 => { let (i, j, v) = (rng.below(r as u64) as usize, rng.below(c as u64) as usize, if rng.below(4) == 0 { Q::int(0) } else { rng.q_nz() });      // explicit zeros are stored entries too
                        if quiet(|| s.insert(i, j, v)).is_err() { report(out, "C06 insert panicked", format!("{}; insert({},{})", ctx, i, j), "panic".into(), "ok".into()); return; }
                        d[i][j] = v; ctx = format!("{}; insert({},{},{})", ctx, i, j, v.n); sparse_views_agree(&s, &d, &ctx, out); }
                 1 => { let v = rng.q_nz(); s.scale(&v); for row in d.iter_mut() { for x in row.iter_mut() { *x = *x * v; } } ctx = format!("{}; scale({})", ctx, v.n); sparse_views_agree(&s, &d, &ctx, out); }
@@ -394,6 +410,18 @@ fn c07_insert(rng: &mut Rng, out: &mut Out) {
         match quiet(|| s.multiply(&Vector::create(x.clone()))) { Ok(p) => if vq(&p) != matvec(&d, &x) { report(out, "C07 after inserts and scale: A*x == dense A*x", format!("{} x={}", ctx, qs(&x)), qs(&vq(&p)), qs(&matvec(&d, &x))); }, Err(e) => report(out, "C07 multiply panicked after inserts", ctx.clone(), e, "a product".into()) }
         match quiet(|| s.transpose_multiply(&Vector::create(y.clone()))) { Ok(p) => if vq(&p) != matvec(&dt, &y) { report(out, "C07 after inserts and scale: A^T*y == dense A^T*y", format!("{} y={}", ctx, qs(&y)), qs(&vq(&p)), qs(&matvec(&dt, &y))); }, Err(e) => report(out, "C07 transpose_multiply panicked after inserts", ctx.clone(), e, "a product".into()) }
         match quiet(|| s.transpose().multiply(&Vector::create(y.clone()))) { Ok(p) => if vq(&p) != matvec(&dt, &y) { report(out, "C07 after inserts and scale: transpose().multiply(y) == A^T*y", format!("{} y={}", ctx, qs(&y)), qs(&vq(&p)), qs(&matvec(&dt, &y))); }, Err(e) => report(out, "C07 transpose panicked after inserts", ctx.clone(), e, "a product".into()) }
+    }
+}
+fn c07_sizes(_rng: &mut Rng, out: &mut Out) {
+    for (r, c) in [(2usize, 3usize), (3, 2), (1, 4), (4, 1), (3, 3)] { case();
+        let mut t = vec![(0usize, 0usize, Q::int(1)), (r - 1, c - 1, Q::int(2))];
+        let s = Sparse::<Q>::from_triplets(r, c, &mut t);
+        for len in 0..(r.max(c) + 3) { case();
+            let v = Vector::<Q>::new(len, Q::int(1));
+            let a = quiet(|| s.multiply(&v)); let at = quiet(|| s.transpose_multiply(&v));
+            if (len == c) != a.is_ok() { report(out, "C07 multiply accepts exactly vectors of length cols", format!("{}x{} matrix, vector of length {}", r, c, len), if a.is_ok() { "returned".into() } else { "panic".into() }, if len == c { "a product".into() } else { "panic".into() }); }
+            if (len == r) != at.is_ok() { report(out, "C07 transpose_multiply accepts exactly vectors of length rows", format!("{}x{} matrix, vector of length {}", r, c, len), if at.is_ok() { "returned".into() } else { "panic".into() }, if len == r { "a product".into() } else { "panic".into() }); }
+        }
     }
 }
 fn c07(rng: &mut Rng, out: &mut Out) {
@@ -526,6 +554,21 @@ fn c09(rng: &mut Rng, out: &mut Out) {
             if !ok { report(out, "C09 converges on SPD / strictly diagonally dominant systems", format!("{} solver={}", ctx, name), format!("{:?} residual={:e}", r, resid(&d, &x, &b)), "Ok within 10n+20 iterations".into()); }
         }
     }
+    // the same on a fixed suite of SPD systems started from a NON-ZERO guess (both error measures of BiCG)
+    let mut fy = Rng(0x1234567DEECE66D5);
+    for it in 0..60 { case();
+        let n = 2 + fy.below(9) as usize;
+        let mut d = vec![vec![0.0f64; n]; n];
+        for i in 0..n { for j in 0..i { if fy.below(3) == 0 { d[i][j] = fy.f(); d[j][i] = d[i][j]; } } d[i][i] = 30.0 + i as f64; }
+        let xs: Vec<f64> = (0..n).map(|_| fy.f()).collect();
+        let b: Vec<f64> = (0..n).map(|i| (0..n).map(|j| d[i][j] * xs[j]).sum::<f64>()).collect();
+        let g: Vec<f64> = (0..n).map(|_| fy.f() * if it % 2 == 0 { 1.0 } else { 50.0 }).collect();
+        let s = sparse_f(&d); let ctx = format!("A={:?} b={:?} x0={:?}", d, b, g);
+        for (name, r, x) in solvers(&s, &Vector::create(b.clone()), &Vector::create(g.clone()), 10 * n + 20, 1e-8) { case();
+            let ok = r.is_ok() && resid(&d, &x, &b) <= 1e-5;
+            if !ok { report(out, "C09 converges on SPD systems from a non-zero guess", format!("{} solver={}", ctx, name), format!("{:?} residual={:e}", r, resid(&d, &x, &b)), "Ok within 10n+20 iterations".into()); }
+        }
+    }
 }
 
 // ---------------------------------------------------------------- C10 roots
@@ -552,7 +595,7 @@ fn c10(rng: &mut Rng, out: &mut Out) {
         cases.push(vec![ai * (Cmplx::new(0.0, 0.0) - r * r * t), ai * (r * r + r * t * 2.0), ai * (Cmplx::new(0.0, 0.0) - (r * 2.0 + t)), ai]);
     }
     { let mul = |p: &Vec<Cmplx>, r: f64| -> Vec<Cmplx> { let mut q = vec![Cmplx::new(0.0, 0.0); p.len() + 1]; for (k, c) in p.iter().enumerate() { q[k + 1] = q[k + 1] + *c; q[k] = q[k] - *c * r; } q };
-      for roots in [vec![1.0, 1.0, -2.0, -2.0, 3.0, 3.0, -0.5, -0.5], vec![1.0, 1.0, 1.0, -2.0, -2.0, -2.0, 0.5, 0.5, 0.5], vec![1.0, 1.0, -1.0, -1.0, 2.0, 2.0, -2.0, -2.0, 0.5, 0.5, -0.5, -0.5]] {
+      for roots in [vec![10.0; 7], vec![3.0; 8], vec![1.0, 1.0, -2.0, -2.0, 3.0, 3.0, -0.5, -0.5], vec![1.0, 1.0, 1.0, -2.0, -2.0, -2.0, 0.5, 0.5, 0.5], vec![1.0, 1.0, -1.0, -1.0, 2.0, 2.0, -2.0, -2.0, 0.5, 0.5, -0.5, -0.5]] {
           let mut p = vec![Cmplx::new(1.0, 0.0)]; for r in &roots { p = mul(&p, *r); } cases.push(p); } }
     for c in cases { for refine in [false, true] { case();
         let deg = c.len() - 1;
@@ -968,16 +1011,22 @@ fn main() {
     let args: Vec<String> = std::env::args().collect();
     let pid = args.get(1).cloned().unwrap_or_default();
     let seed: u64 = args.get(2).and_then(|s| s.parse().ok()).unwrap_or(1);
-    std::panic::set_hook(Box::new(|_| {}));
+    // panics are silent (the oracles provoke many on purpose) but the last one is remembered: a panic that ESCAPES an
+    // oracle comes from a library call the oracle makes on an input the property covers, and is reported as a finding
+    std::panic::set_hook(Box::new(|info| { if let Ok(mut g) = LAST_PANIC.lock() { *g = info.to_string(); } }));
     let mut rng = Rng(0x9E3779B97F4A7C15 ^ (seed.wrapping_mul(0x2545F4914F6CDD1D) | 1));
     let mut out: Out = vec![];
-    match pid.as_str() {
-        "C01" => c01(&mut rng, &mut out), "C02" => c02(&mut rng, &mut out), "C03" => c03(&mut rng, &mut out), "C04" => { c04(&mut rng, &mut out); c04_f64(&mut rng, &mut out) },
-        "C05" => c05(&mut rng, &mut out), "C06" => c06(&mut rng, &mut out), "C07" => { c07(&mut rng, &mut out); c07_insert(&mut rng, &mut out) }, "C08" => c08(&mut rng, &mut out),
-        "C09" => c09(&mut rng, &mut out), "C10" => c10(&mut rng, &mut out), "C11" => c11(&mut rng, &mut out), "C12" => c12(&mut rng, &mut out),
-        "C13" => c13(&mut rng, &mut out), "C14" => c14(&mut rng, &mut out), "C15" => c15(&mut rng, &mut out), "C16" => c16(&mut rng, &mut out),
-        "C17" => c17(&mut rng, &mut out), "C18" => c18(&mut rng, &mut out), "C19" => { c19(&mut rng, &mut out); c19_file(&mut rng, &mut out) }, "C20" => c20(&mut rng, &mut out),
+    let escaped = catch_unwind(AssertUnwindSafe(|| { let out = &mut out; let rng = &mut rng; match pid.as_str() {
+        "C01" => c01(rng, out), "C02" => c02(rng, out), "C03" => c03(rng, out), "C04" => { c04(rng, out); c04_f64(rng, out) },
+        "C05" => { c05(rng, out); c05_f64(rng, out) }, "C06" => c06(rng, out), "C07" => { c07(rng, out); c07_insert(rng, out); c07_sizes(rng, out) }, "C08" => c08(rng, out),
+        "C09" => c09(rng, out), "C10" => c10(rng, out), "C11" => c11(rng, out), "C12" => c12(rng, out),
+        "C13" => c13(rng, out), "C14" => c14(rng, out), "C15" => c15(rng, out), "C16" => c16(rng, out),
+        "C17" => c17(rng, out), "C18" => c18(rng, out), "C19" => { c19(rng, out); c19_file(rng, out) }, "C20" => c20(rng, out),
         _ => { eprintln!("unknown property {}", pid); std::process::exit(2); }
+    } }));
+    if escaped.is_err() {
+        let msg = LAST_PANIC.lock().map(|g| g.clone()).unwrap_or_default();
+        out.push(Finding { oracle: "the library panicked on an input the property covers (the panic escaped the oracle)", input: format!("oracle {} seed {} after {} cases", pid, seed, CASES.load(std::sync::atomic::Ordering::Relaxed)), observed: msg, expected: "no panic".into() });
     }
     let esc = |s: &str| s.replace('\\', "\\\\").replace('"', "\\\"").replace('\n', " ");
     for f in &out {
